@@ -167,6 +167,23 @@ def step (s : DState) (toks : List String) : DState × List String :=
           | .enm f b => .enm (stepEnumeration f i now) b
         ({ s with fsm := s.fsm.set! A (some o') }, [showFsm A (some o')])
     | _, _ => (s, bad)
+  | ["fsm", "stepj", a, inp, dj] =>
+    -- the step with the clock moving on by `dj` ms right after the function's first reading
+    match parseIdx a 16, parseInt inp, parseDec dj with
+    | some A, some i, some d =>
+      if i < -2147483647 ∨ i > 2147483647 ∨ d > 100000000 then (s, bad) else
+      match s.fsm[A]?.getD none with
+      | none => (s, bad)
+      | some o =>
+        let now1 := s.w.nowS
+        let w := { s.w with clockMs := s.w.clockMs + d }
+        let now2 := w.nowS
+        let o' := match o with
+          | .map f m => FsmObj.map (stepMappingR f i now1 now2) m
+          | .sess f => .sess (stepSessionR f i now1 now2)
+          | .enm f b => .enm (stepEnumeration f i now1) b
+        ({ s with w := w, fsm := s.fsm.set! A (some o') }, [showFsm A (some o'), s!"now {w.clockMs}"])
+    | _, _, _ => (s, bad)
   | ["fsm", "show", a] =>
     match parseIdx a 16 with
     | some A => (s, [showFsm A (s.fsm[A]?.getD none)])
